@@ -728,6 +728,40 @@ func runC09(c *Ctx) {
 				in := in
 				c.mustFollowIter(fn, "each input of the update ("+spec.field+")", starts, func(x ssa.Instruction) bool { return x == in }, spec.what, sameThing, 1)
 			}
+			// (c) collected by such a loop in a local slice that starts as
+			// the field's value and is stored back behind the loop
+			if n == 0 {
+				for _, in := range find(fn, storeToField(wf)) {
+					var app *ssa.Call
+					ir.DerivesFrom(in.(*ssa.Store).Val, func(x ssa.Value) bool {
+						call, ok := x.(*ssa.Call)
+						if ok && app == nil && isBuiltin("append")(call) && len(call.Call.Args) == 2 && ir.LoopHeaderOf(call.Block()) != nil &&
+							ir.DerivesFrom(call.Call.Args[1], func(y ssa.Value) bool {
+								ia, isIA := y.(*ssa.IndexAddr)
+								return isIA && loadsField(inputsF)(ia.X)
+							}) && ir.DerivesFrom(call.Call.Args[0], loadsField(wf)) {
+							app = call
+						}
+						return false
+					})
+					if app == nil {
+						continue
+					}
+					h := ir.LoopHeaderOf(app.Block())
+					if ir.LoopBlocks(h)[in.Block()] || !h.Dominates(in.Block()) {
+						continue
+					}
+					n++
+					blocks := ir.LoopBlocks(h)
+					var starts []start
+					for i, sc := range h.Succs {
+						if blocks[sc] {
+							starts = append(starts, atEdge(c, ir.Edge{From: h, Succ: i}, "next input of the update"))
+						}
+					}
+					c.mustFollowIter(fn, "each input of the update ("+spec.field+")", starts, func(x ssa.Instruction) bool { return x == ssa.Instruction(app) }, spec.what, sameThing, 1)
+				}
+			}
 			if n == 0 {
 				c.fail(construct, c.P.Pos(fn.Pos()), "update.inputs is neither appended to "+spec.field+" as a whole nor element by element in a loop over it")
 			}
